@@ -586,6 +586,7 @@ func runC18(c *Ctx) {
 			c.Check(g && nonVacuous(pass), "R6", "worker:negative-size-refused", p.InstrPos(ci), "a transfer with a negative size is refused before it starts", "a transfer with a negative size can reach the adapter: "+path)
 		}
 	}
+	c18ActionHeadersWin(c)
 }
 
 func constStringOf(p *Prog, pkg, name string) string {
@@ -609,4 +610,109 @@ var c18Canaries = []Canary{
 	{Name: "upload-with-post", ExpectKey: "C18.R4#method", Edits: []Edit{{File: "tq/basic_upload.go", Find: "	req, err := a.newHTTPRequest(\"PUT\", rel)", Repl: "	req, err := a.newHTTPRequest(\"POST\", rel)"}}},
 	{Name: "verify-body-extra-field", ExpectKey: "C18.R1#verify-body", Edits: []Edit{{File: "tq/verify.go", Find: "		Oid  string `json:\"oid\"`\n		Size int64  `json:\"size\"`\n	}{Oid: t.Oid, Size: t.Size})", Repl: "		Oid  string `json:\"oid\"`\n		Size int64  `json:\"size\"`\n		Name string `json:\"name\"`\n	}{Oid: t.Oid, Size: t.Size, Name: t.Name})"}}},
 	{Name: "negative-size-not-refused", ExpectKey: "C18.R6", Edits: []Edit{{File: "tq/adapterbase.go", Find: "		if t.Size < 0 {\n			err = errors.New(tr.Tr.Get(\"object %q has invalid size (got: %d)\", t.Oid, t.Size))\n		} else {", Repl: "		if t.Size < -1 {\n			err = errors.New(tr.Tr.Get(\"object %q has invalid size (got: %d)\", t.Oid, t.Size))\n		} else {"}}},
+}
+
+// c18ActionHeadersWin (R4, headers): an action's `header` object is part of what the server offered (pre-signed URLs
+// sign some of them). The client may add headers of its own, but a header the action named is used as offered: a
+// constant-key Header.Set on a transfer request either belongs to the frozen list of client-owned headers below,
+// comes before the action's headers are applied (defaults), or is guarded by a test that the request does not
+// carry that header yet.
+var c18ClientHeaders = map[string]string{
+	"(*tq.basicDownloadAdapter).download:Range":             "byte range of a resumed download (the client's own request parameter)",
+	"(*tq.basicUploadAdapter).DoTransfer:Content-Length":    "length of the object, only when the action did not ask for chunked encoding",
+	"(*tq.tusUploadAdapter).DoTransfer:Tus-Resumable":       "tus protocol version",
+	"(*tq.tusUploadAdapter).DoTransfer:Upload-Offset":       "tus protocol offset",
+	"(*tq.tusUploadAdapter).DoTransfer:Content-Type":        "tus protocol media type",
+	"(*tq.tusUploadAdapter).DoTransfer:Content-Length":      "tus protocol: remaining length",
+	"tq.verifyUpload:Content-Type":                          "default, set before the verify action's own headers are applied",
+	"tq.verifyUpload:Accept":                                "default, set before the verify action's own headers are applied",
+}
+
+func c18ActionHeadersWin(c *Ctx) {
+	p := c.P
+	n := 0
+	for _, fn := range p.RepoFuncs(func(s string) bool { return s == Mod+"/tq" }) {
+		root := fn
+		for root.Parent() != nil {
+			root = root.Parent()
+		}
+		for _, ci := range CallsIn(fn, "(net/http.Header).Set", "(net/http.Header).Add", "(net/http.Header).Del") {
+			args := CallArgs(ci.Common())
+			if len(args) < 2 {
+				continue
+			}
+			k, isC := ConstString(args[1])
+			if !isC {
+				continue // copying the action's headers
+			}
+			n++
+			id := FnName(root) + ":" + k
+			if why, ok := c18ClientHeaders[id]; ok {
+				if strings.HasPrefix(why, "default") {
+					// the action's headers must be applied afterwards: a non-constant Set later in the function
+					later := false
+					for _, cj := range CallsIn(fn, "(net/http.Header).Set") {
+						a2 := CallArgs(cj.Common())
+						if _, c2 := ConstString(a2[1]); !c2 {
+							if ci.Block() != cj.Block() && ci.Block().Dominates(cj.Block()) || ci.Block() == cj.Block() && InstrIndex(ci) < InstrIndex(cj) {
+								later = true
+							}
+						}
+					}
+					c.Check(later, "R4", "header-default-before-action:"+id, p.InstrPos(ci), why, "a default header is set after (or without) the action's headers being applied: it overrides what the action offered")
+				} else {
+					c.OK("R4", "client-header:"+id, p.InstrPos(ci), why)
+				}
+				continue
+			}
+			// must be guarded by an absence test of the same header
+			pass := PassEdges(fn, func(cond ssa.Value) (bool, bool) {
+				op, x, y, ok := BinCmp(cond)
+				if !ok {
+					return false, false
+				}
+				isGet := func(v ssa.Value) bool {
+					cc, ok := v.(*ssa.Call)
+					if !ok {
+						return false
+					}
+					if bi, isB := cc.Call.Value.(*ssa.Builtin); isB && bi.Name() == "len" {
+						v = cc.Call.Args[0]
+						cc, ok = v.(*ssa.Call)
+						if !ok {
+							return false
+						}
+					}
+					if CalleeName(&cc.Call) != "(net/http.Header).Get" {
+						return false
+					}
+					ga := CallArgs(&cc.Call)
+					s, isS := ConstString(ga[1])
+					return isS && strings.EqualFold(s, k)
+				}
+				zero := func(v ssa.Value) bool {
+					if s, ok := ConstString(v); ok && s == "" {
+						return true
+					}
+					if i, ok := ConstInt(v); ok && i == 0 {
+						return true
+					}
+					return false
+				}
+				if isGet(x) && zero(y) || isGet(y) && zero(x) {
+					switch op {
+					case token.EQL:
+						return true, true
+					case token.NEQ, token.GTR:
+						return false, true
+					}
+				}
+				return false, false
+			})
+			g, path := Guarded(fn.Blocks[0], ci, pass, nil)
+			c.Check(g && nonVacuous(pass), "R4", "header-only-if-absent:"+id, p.InstrPos(ci), "set only when the request (hence the action) does not carry it",
+				"the client sets the "+k+" header of a transfer request although the action may have offered one: the offered header is overridden (a pre-signed URL that signs it is rejected): "+path)
+		}
+	}
+	c.AtLeast("R4", "constant-key header writes in tq", n, 8)
 }
